@@ -34,6 +34,16 @@ def build_mem(d):
         ra = pyrtl.Input(aw, 'ra%d' % i)
         o = pyrtl.Output(bw, 'rd%d' % i)
         o <<= m[ra]
+    if d.get('cond'):
+        # all writes are made inside one conditional_assignment block, branch j under predicate p<j>, each an EnabledWrite:
+        # one physical write port whose address/data/enable are selected by the first true predicate
+        ports = [(pyrtl.Input(aw, 'wa%d' % j), pyrtl.Input(bw, 'wd%d' % j), pyrtl.Input(1, 'we%d' % j), pyrtl.Input(1, 'p%d' % j))
+                 for j in range(nw)]
+        with pyrtl.conditional_assignment:
+            for wa, wd, we, p in ports:
+                with p:
+                    m[wa] |= pyrtl.MemBlock.EnabledWrite(wd, we)
+        nw = 0
     for j in range(nw):
         wa, wd = pyrtl.Input(aw, 'wa%d' % j), pyrtl.Input(bw, 'wd%d' % j)
         en = d.get('enable', True)
@@ -127,6 +137,13 @@ def cases(tier, seed):
             out.append(dict(d, k='bmc_uninit', backend=be, K=3 if nw == 1 else 2))
     out.append({'fam': 'MEM', 'aw': 2, 'bw': 4, 'nr': 1, 'nw': 1, 'enable': False, 'k': 'step', 'backend': 'sim'})
     out.append({'fam': 'MEM', 'aw': 2, 'bw': 4, 'nr': 1, 'nw': 1, 'enable': False, 'k': 'step', 'backend': 'fast'})
+    for be in ('sim', 'fast'):
+        out.append({'fam': 'MEM', 'aw': 2, 'bw': 3, 'nr': 1, 'nw': 1, 'k': 'two_sims', 'backend': be, 'K': 2})
+        out.append({'fam': 'MEM', 'aw': 1, 'bw': 8, 'nr': 2, 'nw': 2, 'k': 'two_sims', 'backend': be, 'K': 2})
+    for nwc in (1, 2, 3):
+        for be in BACKENDS:
+            out.append({'fam': 'MEM', 'aw': 2, 'bw': 3, 'nr': 1, 'nw': nwc, 'cond': True, 'k': 'step', 'backend': be})
+    out.append({'fam': 'MEM', 'aw': 2, 'bw': 3, 'nr': 1, 'nw': 2, 'cond': True, 'k': 'bmc_uninit', 'backend': 'sim', 'K': 2})
     for ek in ('const0', 'const1'):
         for nw in (1, 2):
             for be in BACKENDS:
@@ -167,7 +184,10 @@ def array_oracle(case, v, arr, t):
     ens = []
     for j in range(nw):
         ek = case.get('enable', True)
-        if ek in ('const0', 'const1') and j == 0:
+        if case.get('cond'):
+            # branch j is active iff its predicate holds and no earlier one does; the write needs its own enable too
+            en = z3.And(v.inp('p%d' % j, t, 1) == 1, v.inp('we%d' % j, t, 1) == 1, *[v.inp('p%d' % q, t, 1) == 0 for q in range(j)])
+        elif ek in ('const0', 'const1') and j == 0:
             en = z3.BoolVal(ek == 'const1')
         else:
             en = v.inp('we%d' % j, t, 1) == 1 if ek else z3.BoolVal(True)
@@ -320,11 +340,19 @@ def run_case(case, ob, tier):
         return run_chelper(case, ob, site)
     if case['k'] == 'rom':
         return run_rom(case, ob, site)
+    if case['k'] == 'two_sims':
+        # "else the initial content, else 0": a second simulator on the same MemBlock, created with default arguments, starts
+        # from empty memories whatever an earlier simulator wrote (harness shared with C15)
+        from . import c15
+        return c15.do_two_sims(dict(case, sim=case['backend']), ob, site)
     return run_mem(case, ob, site)
 
 
 def replay(cex):
     case = cex['case']
+    if case['k'] == 'two_sims':
+        from . import c15
+        return c15.replay_two_sims(dict(case, sim=case['backend']), designs.build(case), cex.get('model', {}))
     if case['k'] == 'chelper':
         block, bw = helper_design(case['limbs'])
         sim = pyrtl.CompiledSimulation(block=block)
@@ -388,7 +416,10 @@ def replay(cex):
                        % (t, trace['rdw'][t], arr.get(inp('wa0', t), 0)))
         for j in range(case['nw']):
             ek = case.get('enable', True)
-            if (ek == 'const1' and j == 0) or (not (ek in ('const0', 'const1') and j == 0) and (not ek or inp('we%d' % j, t))):
+            if case.get('cond'):
+                if inp('p%d' % j, t) and inp('we%d' % j, t) and not any(inp('p%d' % q, t) for q in range(j)):
+                    arr[inp('wa%d' % j, t)] = inp('wd%d' % j, t)
+            elif (ek == 'const1' and j == 0) or (not (ek in ('const0', 'const1') and j == 0) and (not ek or inp('we%d' % j, t))):
                 arr[inp('wa%d' % j, t)] = inp('wd%d' % j, t)
     got = mems.get('m', {})
     for a in range(min(1 << aw, 1024)):
